@@ -1,6 +1,6 @@
 """C19 — ensemble partitioning reassembles every member exactly once.
 
-Space: ensemble kinds {CustomScan n = 1..5, LineScan gpts 1..5 x endpoint, GridScan (1..3)x(1..3) x endpoint^2, CTF with one or
+Space: ensemble kinds {CustomScan n = 1..5, LineScan gpts 1..5 x endpoint, GridScan (1..3)x(1..3) x endpoint^2 plus (4,1), (1,4), (4,2), (2,5), (5,1), CTF with one or
 two distributions, Aperture distribution, BeamTilt N x 2, BeamTilt2D, FrozenPhonons n = 1..4, AtomsEnsemble, seeded
 CrystalPotential, Probe (composite: tilt x aberration x positions), Waves / Images / DiffractionPatterns arrays with
 ensemble shapes up to (3,2), MultisliceTransform} x EVERY composition of every ensemble axis as chunking x {generate_blocks
@@ -35,6 +35,9 @@ def specs(quick):
         if quick and ex != ey and (nx + ny) % 2:
             continue
         S.append({"kind": "grid", "n": [nx, ny], "ep": [ex, ey]})
+    # three or more blocks of DIFFERENT sizes need >= 4 positions on an axis (compositions such as (1, 2, 1), (2, 1, 2), (1, 3, 1))
+    for (nx, ny), ep in itertools.product(((4, 1), (1, 4), (4, 2), (2, 5), (5, 1)), ((False, False), (True, True))):
+        S.append({"kind": "grid", "n": [nx, ny], "ep": list(ep)})
     S += [{"kind": "ctf1", "n": 4}, {"kind": "ctf2", "n": [3, 2]}, {"kind": "aperture", "n": 3}, {"kind": "tilt_nx2", "n": 4}, {"kind": "tilt2d", "n": [3, 2]}]
     for n in range(1, 5):
         S.append({"kind": "fp", "n": n})
